@@ -63,7 +63,7 @@ def g_str_items(rng, q):
 
 
 def g_lexeme(rng):
-    k = rng.choice(['num', 'numf', 'ident', 'identd', 'identu', 'fixed', 'fast', 'pct', 'dim', 'hash', 'atkw', 'atkw',
+    k = rng.choice(['num', 'numf', 'nums', 'ident', 'identd', 'identu', 'fixed', 'fast', 'pct', 'dim', 'hash', 'atkw', 'atkw',
                     'str', 'stri', 'stri', 'uriq', 'uriq', 'fn', 'fn', 'uri', 'uri', 'ur', 'uri2', 'cmt', 'cmt', 'cdc'])
     if k == 'num':
         d = _digits(rng)
@@ -75,6 +75,10 @@ def g_lexeme(rng):
         n = rng.choice([1, 2])
         w = _ident(rng, NAME_START)
         return 'identd,%X,%s' % (n, enc(w)), '-' * n + w, ('IDENT', '-' * n + w)
+    if k == 'nums':
+        sg = rng.choice(['+', '-', '-', ''])
+        t = sg + _digits(rng)
+        return 'nums,%s,%s' % (enc(sg), enc(t[len(sg):])), t, ('NUMBER', t)
     if k == 'numf':
         sg = rng.choice(['', '', '+', '-'])
         ip = ''.join(rng.choice('0123456789') for _ in range(rng.randint(0, 3)))
